@@ -202,8 +202,15 @@ def run(ctx):
             if sk:
                 e['st_orig'] = e['st']
                 e['st'] = 'skip:' + sk
-        if c['generated'] and e['st'] in ('error', 'keepbad', 'unsupported', 'rejected'):
+        if c['generated'] and e['st'] in ('error', 'unsupported', 'rejected'):
             raise vlib.Infra('generated program not processable (%s: %s): %s' % (e['st'], e['why'], c['src'][:400]))
+    # name-keeping output that acorn refuses (var hoisted next to a let of the same name, see C09): there is no
+    # reference world to compare with; not judged, counted, and bounded
+    nkb = [c['src'] for c, e in zip(cases, proj) if c['generated'] and e['st'] == 'keepbad']
+    ctx.coverage['keep_output_unparseable'] = len(nkb)
+    ctx.coverage['keep_output_unparseable_sample'] = nkb[:2]
+    if len(nkb) > 0.02 * sum(1 for c in cases if c['generated']):
+        raise vlib.Infra('%d generated programs have an unparseable name-keeping output: %s' % (len(nkb), nkb[0][:300]))
     ngen = sum(1 for c in cases if c['generated'])
     nmis = sum(1 for c, e in zip(cases, proj) if c['generated'] and e['st'] == 'mismatch')
     if nmis > 0.02 * ngen:
